@@ -380,6 +380,11 @@ def run(ctx, report):
             R10.violation(inst, 'imm-type:%s' % label.split()[0], '%s: the immediate is typed %s, the operand size is %s: encodings of that size (sign-extended imm8) are not offered'
                           % (label, imm_[1] if isinstance(imm_, tuple) else type(imm_).__name__, want), where(arch, asn), witness="asm_att('pushw $65535') lacks 66 6a ff")
 
+    # ---------------------------------------------------------------- D11 both renderings come from one object
+    R11 = report.rule('C09.D11', 'rendering does not change the instruction: the Intel and the AT&T rendering of one decoded object describe the same instruction (shared with C12.D11)', floor=4)
+    from .c12 import readonly_methods_rule
+    readonly_methods_rule(ctx, R11)
+
 
 def numpy_imm_eval(ctx, args10):
     """arg_set_numpy_imm evaluated on an operand list (copied); returns the list after the call.  Immediates it typed are ('TYPED', size token | 'int32', value)."""
@@ -423,4 +428,5 @@ MUTANTS = [
     ('from-att-set-order', 'miasmx/arch/ia32_arch.py', "    elif name.startswith('set'):\n        if name.endswith('b') and not name in [ 'setb', 'setnb' ]:", "    elif name.startswith('set'):\n        if name.endswith('b') and not name in [ 'setnb' ]:", 'C09.D2'),
     ('movzx-bw', 'miasmx/arch/ia32_arch.py', "        elif sz == (u16, u08):\n            return name[:4]+'bw'", "        elif sz == (u16, u08):\n            return name[:4]+'wb'", 'C09.D2'),
     ('movsx-ww-unknown', 'miasmx/arch/ia32_arch.py', "        elif sz == (u16, u16):\n", "        elif False:\n", 'C09.D1'),
+    ('str-prefix-alias', 'miasmx/arch/ia32_arch.py', "        prefix = self.prefix[:]\n        mnemo = [ self.m.name ]", "        prefix = self.prefix\n        mnemo = [ self.m.name ]", 'C09.D11'),
 ]
